@@ -576,7 +576,7 @@ async def run_pair(corr: Corr, ctx, rng, label: str, old_spec, new_spec, must: l
     corr.count("sequence:" + case["sequence"])
     if ctx.model_ok:
         model_lines.append((f"ops {hexb(new_bytes)}", "ops", " ".join(ops), case))
-        if old_bytes is not None:
+        if old_bytes is not None and len(new_bytes) <= 3000:     # the model enumerates every byte prefix: small texts only
             dg = " ".join(digest(f) for _, f in states)
             if in_place or not atomic:
                 model_lines.append((f"digest {hexb(old_bytes)} {hexb(new_bytes)}", "crash states (digest)", dg, case))
@@ -589,7 +589,7 @@ async def run_pair(corr: Corr, ctx, rng, label: str, old_spec, new_spec, must: l
         if lab["kind"] == "write" and lab["of"] > 0:
             wspan = (i - lab["bytes"], i - lab["bytes"] + lab["of"]) if wspan is None or lab["of"] > wspan[1] - wspan[0] else wspan
     chosen = spread(len(states), wspan, rng, ctx.tier, must)
-    if ctx.model_ok and old_bytes is not None and (in_place or atomic):
+    if ctx.model_ok and old_bytes is not None and (in_place or atomic) and len(new_bytes) <= 3000:
         cmd = "crashat" if in_place else "acrashat"
         sample = chosen if len(chosen) <= 64 else [chosen[(len(chosen) - 1) * j // 63] for j in range(64)]
         model_lines.append((f"{cmd} {hexb(old_bytes)} {hexb(new_bytes)} {','.join(map(str, sample))}",
@@ -702,6 +702,13 @@ def run_c15(ctx) -> Corr:
     for a in kinds:
         for b in kinds:
             pairs.append((f"{a}->{b}", kinds[a], kinds[b], []))
+    # a save that makes the file grow across several file-system blocks (and back): 12 nodes, a little over one 4 KiB block
+    big = [{"node_id": i, "node_type": 17, "protocol_version": "2.3.2", "sketch_name": f"Sensor {i}", "sketch_version": "1.0",
+            "battery_level": i % 101, "heartbeat": i * 1000,
+            "children": [{"child_id": c, "child_type": 6, "description": f"child {c} of {i}", "values": {"0": f"{i}.{c}", "2": "1"}} for c in range(3)]}
+           for i in range(1, 13)]
+    pairs.append(("one->big", ONE, big, []))
+    pairs.append(("big->one", big, ONE, []))
     pairs.append(("nofile->one", None, ONE, []))
     pairs.append(("nofile->several", None, SEVERAL, []))
     for j in range(4 if ctx.tier == "quick" else 12):
